@@ -188,6 +188,9 @@ def term_cases(tier):
         plans = [(Enum([0, 1, -3, 1 << 63, (1 << 64) + 1], [0.5, -2.0, 1e308], ['', 'a', 'é']), 3), (Enum([0, 2], [0.5], ['a']), 4)]
     else:
         plans = [(Enum([0, 1, -3, 1 << 63, (1 << 64) + 1], [0.5, -2.0, 1e308], ['', 'a', 'é']), 4), (Enum([0, 2], [0.5], ['a']), 5)]
+    # representation boundaries: long operands whose sum / difference / quotient is short again, and the reverse
+    BIG = [5, -1, (1 << 63) - 1, 1 << 63, -(1 << 63), (1 << 64) + 1, (1 << 64) - 4, -(1 << 64) - 1, 1 << 70, (1 << 70) + 5]
+    plans.append((Enum(BIG, [0.5], ['a']), 4 if tier == 'quick' else 5))
     seen = set()
     for en, n in plans:
         for size in range(1, n + 1):
